@@ -1,0 +1,80 @@
+//go:build verif
+
+package cmpb
+
+import (
+	"fmt"
+	"sort"
+
+	"github.com/pentops/j5/internal/bcl/gen/j5/bcl/v1/bcl_j5pb"
+	"github.com/pentops/j5/internal/j5s/j5parse"
+)
+
+// Verification-only (build tag "verif"); adds no behaviour. FrontEnd exposes the j5s
+// front end of the compiler (BCL lexer + parser, the schema-driven walker that fills
+// j5.sourcedef.v1.SourceFile, protovalidate) for one file, and dumps the source
+// location tree the walker built as plain data.
+
+// Loc is one node of the bcl.j5.v1.SourceLocation tree: the path of map keys from
+// the root and the span stored there (0-based lines and columns).
+type Loc struct {
+	Path      []string
+	StartLine int32
+	StartCol  int32
+	EndLine   int32
+	EndCol    int32
+}
+
+type FrontEnd struct {
+	p *j5parse.Parser
+}
+
+func NewFrontEnd() (*FrontEnd, error) {
+	p, err := j5parse.NewParser()
+	if err != nil {
+		return nil, err
+	}
+	return &FrontEnd{p: p}, nil
+}
+
+// Parsed is the outcome of FrontEnd.Parse: the location tree (pre-order, children by
+// sorted key) when a file came back, the error, or the recovered panic value.
+type Parsed struct {
+	HasFile bool
+	Locs    []Loc
+	Err     error
+	Panic   any
+}
+
+func flattenLocs(path []string, l *bcl_j5pb.SourceLocation, out *[]Loc) {
+	if l == nil {
+		return
+	}
+	p := make([]string, len(path))
+	copy(p, path)
+	*out = append(*out, Loc{Path: p, StartLine: l.StartLine, StartCol: l.StartColumn, EndLine: l.EndLine, EndCol: l.EndColumn})
+	keys := make([]string, 0, len(l.Children))
+	for k := range l.Children {
+		keys = append(keys, k)
+	}
+	sort.Strings(keys)
+	for _, k := range keys {
+		flattenLocs(append(path, k), l.Children[k], out)
+	}
+}
+
+func (fe *FrontEnd) Parse(filename, data string) (out Parsed) {
+	defer func() {
+		if r := recover(); r != nil {
+			out.Panic = fmt.Sprint(r)
+		}
+	}()
+	file, err := fe.p.ParseFile(filename, data)
+	if err != nil {
+		out.Err = err
+		return out
+	}
+	out.HasFile = true
+	flattenLocs(nil, file.SourceLocations, &out.Locs)
+	return out
+}
